@@ -80,8 +80,9 @@ def main():
         if ok:
             dst = os.path.join("/verif/seeded", name)
             os.makedirs(dst, exist_ok=True)
-            shutil.copy(patch, os.path.join(dst, "patch.diff"))
-            shutil.copy(demo, os.path.join(dst, "demo.py"))
+            if os.path.abspath(seed_dir) != os.path.abspath(dst):
+                shutil.copy(patch, os.path.join(dst, "patch.diff"))
+                shutil.copy(demo, os.path.join(dst, "demo.py"))
             prev = {}
             mp = os.path.join(dst, "meta.json")
             if os.path.exists(mp):
